@@ -140,7 +140,7 @@ impl Shape {
             Strat::Simple(rf) => simple_strategy(*rf),
             Strat::Nts(v) => nts(&v.iter().enumerate().map(|(d, rf)| (Shape::dc_name(d), *rf)).collect::<Vec<_>>()),
         };
-        Topology { nodes, keyspaces: vec![KeyspaceSpec { name: "ks".into(), replication, tables: vec![std_table()] }] }
+        Topology { nodes, keyspaces: vec![KeyspaceSpec { name: "ks".into(), replication, tables: vec![std_table()], initial_tablets: None }], tablets_ext: false }
     }
 }
 
